@@ -204,32 +204,25 @@ func r11_3(c *Ctx, rule string) {
 	}
 	base := c.name(lit)
 	// the map
-	var cell *ssa.FreeVar
+	// (a captured variable, or a field of the walk's state object)
 	var rec []*ssa.MapUpdate
+	okMap := true
 	eng.Instrs(lit, func(in ssa.Instruction) {
 		mu, ok := in.(*ssa.MapUpdate)
 		if !ok {
 			return
 		}
-		if u, isU := mu.Map.(*ssa.UnOp); isU && u.Op == token.MUL {
-			if fv, isFV := u.X.(*ssa.FreeVar); isFV {
-				cell = fv
-				rec = append(rec, mu)
-			}
+		if t, isMap := mu.Map.Type().Underlying().(*types.Map); !isMap || t.Key().String() != "string" || t.Elem().String() != "string" {
+			return
+		}
+		rec = append(rec, mu)
+		if !c.perCallMap(mu.Map, w) {
+			okMap = false
 		}
 	})
-	if cell == nil {
+	if len(rec) == 0 {
 		c.R.Fail(rule, base+"/seen-map", c.P.Pos(lit.Pos()), "the link-reset callback records nothing in a per-walk map")
 		return
-	}
-	root := c.P.Census().Root(cell)
-	okMap := false
-	if root != nil && root.Parent() == w && len(c.P.Census().CellStorers(root)) == 1 {
-		for _, r := range eng.Referrers(root) {
-			if s, isS := r.(*ssa.Store); isS && s.Addr == ssa.Value(root) {
-				_, okMap = s.Val.(*ssa.MakeMap)
-			}
-		}
 	}
 	c.R.Check(okMap, rule, base+"/seen-map-per-walk", c.P.Pos(w.Pos()), "the map is made once at the start of each Walk", "the seen-map is not a single map made at the start of each Walk (shared across walks, or per entry)")
 	// regular entries are always recorded under the walk path
@@ -249,7 +242,7 @@ func r11_3(c *Ctx, rule string) {
 			return false
 		}
 		_, isParam := eng.Strip(mu.Key).(*ssa.Parameter)
-		return isParam && mu.Map.(*ssa.UnOp) != nil && isFieldLoad(mu.Value, "types.Stat.Path")
+		return isParam && isFieldLoad(mu.Value, "types.Stat.Path")
 	}
 	c.ObPrecedes(rule, base+"/regular-entries-recorded", lit, as, isPathRec, c.callPred("freevar:fn"), "recording seenFiles[path] = stat.Path", "reporting a regular entry")
 	// rewrites
